@@ -272,6 +272,9 @@ func (c *CheckCtx) finish() int {
 	if len(c.inconcl) > 0 {
 		cov["inconclusive_reasons"] = c.inconcl
 	}
+	if c.assumptions == nil {
+		c.assumptions = []string{"candidates found in-process are confirmed on the plain binary built from the working tree"}
+	}
 	ev := map[string]any{
 		"property_id": c.ID,
 		"tier":        c.Tier,
